@@ -143,6 +143,7 @@ func (tl *TokenLimiter) consumeRates(req *http.Request, source string, amount in
 		}
 	}
 	delay, err := bucketSet.Consume(amount)
+	verifEmit("tl.consume", tl, source, amount, exists, int64(delay), err != nil, tl.bucketSets.Len())
 	if err != nil {
 		return err
 	}
